@@ -102,6 +102,7 @@ struct USock
 	std::int64_t t_posted = 0;
 	OpPtr rop;
 	int df_state = 0; // 0 untouched, 1 set, 2 cleared
+	std::uint64_t recv_gen = 0; // the latest asynchronous receive posted on this socket
 	std::string other_opts; // unrelated options set on this socket (after the don't-fragment decision), for violation keys
 	std::int64_t sndbuf_bytes = 20000000; // send buffer in bytes (default: 200 ms at the NIC rate of 100 MB/s)
 	std::int64_t model_next_send = 0;     // reference model of the NIC: when the bytes accepted so far will have left
@@ -359,16 +360,26 @@ struct World
 			})));
 			return;
 		}
+		// the buffers and the sender slot belong to this operation: an operation that has already completed when the
+		// socket is cancelled / moved / re-armed at the same instant still delivers into its own buffers
+		struct OpState { std::vector<std::vector<std::uint8_t>> rbufs; ip::udp::endpoint sender; std::uint64_t gen; };
 		auto b = make_rbufs(u);
-		u.sender = ip::udp::endpoint();
+		auto st = std::make_shared<OpState>();
+		st->rbufs = std::move(u.rbufs); // moving the outer vector keeps the inner blocks (and the addresses in b) in place
+		u.rbufs.clear();
+		st->gen = ++u.recv_gen;
 		u.rop = ops.make(u.rstyle == 0 ? "udp.receive_from" : "udp.receive", u.id, false);
-		auto h = track2(u.rop, [this, up](error_code const& ec, std::size_t n) {
-			up->r_pending = false;
+		bool const with_sender = u.rstyle == 0;
+		auto h = track2(u.rop, [this, up, st, with_sender](error_code const& ec, std::size_t n) {
+			bool const current = st->gen == up->recv_gen;
+			if (current) up->r_pending = false;
 			if (ec) return;
-			delivered(*up, n, up->rstyle == 0);
-			again(*up);
+			up->rbufs.swap(st->rbufs); up->sender = st->sender;
+			delivered(*up, n, with_sender);
+			up->rbufs.swap(st->rbufs);
+			if (current) again(*up);
 		});
-		if (u.rstyle == 0) API(u.s->async_receive_from(b, u.sender, std::move(h)));
+		if (u.rstyle == 0) API(u.s->async_receive_from(b, st->sender, std::move(h)));
 		else API(u.s->async_receive(b, std::move(h)));
 	}
 
